@@ -113,18 +113,15 @@ func runBatch(ctx *hx.Ctx, bc *BatchCase) (class, summary string, found bool) {
 				}
 			}
 			s.batches[b.From] = raws
-			// an element that is not one well-formed RLP value cannot be carried in the answer list: the
-			// call itself fails on the receiving side (decided with the real rlp library)
-			malformed := false
-			for _, r := range raws {
-				if _, _, rest, err := rlp.Split(r); err != nil || len(rest) != 0 {
-					malformed = true
-				}
-			}
-			if malformed {
+			// what the receiving side sees is the answer list re-split by the real rlp decoder: an element that is
+			// not one well-formed RLP value either breaks the list (the call fails) or swallows its neighbours
+			enc, _ := rlp.EncodeToBytes(raws)
+			var eff []rlp.RawValue
+			if err := rlp.DecodeBytes(enc, &eff); err != nil {
 				line = append(line, fmt.Sprintf("| %x ERR", b.From))
 				continue
 			}
+			raws = eff
 			ds := make([]string, len(raws))
 			for i, r := range raws {
 				ds[i] = describe(r)
@@ -520,6 +517,9 @@ func childMain(casesPath, outPath string) {
 			flush()
 			os.Exit(0)
 		}
+		if mc.Code == proto.MsgNewBlockID {
+			tainted = true // the node's own fetch and our hostile answer may end the connection at any moment from here on
+		}
 		v := int8(0)
 		if !alive {
 			v = 1
@@ -528,9 +528,6 @@ func childMain(casesPath, outPath string) {
 			v = -1
 		}
 		res.Verdict = append(res.Verdict, v)
-		if mc.Code == proto.MsgNewBlockID {
-			tainted = true
-		}
 		if !alive {
 			tainted = false
 			res.Dropped++
@@ -769,7 +766,7 @@ func genMsgs(ctx *hx.Ctx, rnd *hx.Rand) []MsgCase {
 		block.Compose(remote[7].Header(), nil),
 		remote[8],
 	}
-	total := ctx.Scale(12000, 300000)
+	total := 12000 // per chunk; partC runs ctx.Scale(1, 12) chunks
 	codes := []uint64{0, 1, 2, 3, 4, 5, 6, 7, 8, 9, 255, 1 << 40}
 	var out []MsgCase
 	goodTx := transfer(rc, 3, 99, 0)
@@ -875,8 +872,14 @@ func genMsgs(ctx *hx.Ctx, rnd *hx.Rand) []MsgCase {
 }
 
 func partC(ctx *hx.Ctx, rnd *hx.Rand) {
+	for chunk := 0; chunk < ctx.Scale(1, 12); chunk++ {
+		partCChunk(ctx, rnd)
+	}
+}
+
+func partCChunk(ctx *hx.Ctx, rnd *hx.Rand) {
 	cases := genMsgs(ctx, rnd)
-	shards := ctx.Scale(4, 16)
+	shards := 4
 	var wg sync.WaitGroup
 	results := make([]func(), shards)
 	per := (len(cases) + shards - 1) / shards
